@@ -480,9 +480,13 @@ async fn main(plan: Plan) -> Outcome {
         let caching = caching.clone();
         let per = plan.per_caller;
         let gaps: Vec<u64> = (0..per).map(|_| tape::range("c14:gap", 0, 60) * MS).collect();
-        let kinds: Vec<u8> = (0..per).map(|_| tape::weighted("c14:kind", &[5, 2, 2, 2]) as u8).collect();
+        let kinds: Vec<u8> = (0..per).map(|_| tape::weighted("c14:kind", &[5, 2, 2, 2, 1]) as u8).collect();
+        let use_cached = plan.use_cached;
         handles.push(tokio::spawn(async move {
             let mut obs = Vec::new();
+            // A caller may prepare the SELECT again in the middle of the run and go on with
+            // the new handle (whose cached metadata is the one current at that time).
+            let mut sel = sel;
             for k in 0..per {
                 world::sleep_ns(gaps[k]).await;
                 let kind = kinds[k];
@@ -501,6 +505,15 @@ async fn main(plan: Plan) -> Outcome {
                     }
                     Ok(rows)
                 };
+                if kind == 4 {
+                    if let Ok(mut p) = session.prepare(SEL).await {
+                        p.set_is_idempotent(true);
+                        p.set_use_cached_result_metadata(use_cached);
+                        sel = Arc::new(p);
+                        world::world().probe("select_prepared_again_by_caller");
+                    }
+                    continue;
+                }
                 let result = match (kind, &caching) {
                     (0, Some(cs)) => cs
                         .execute_unpaged(idem(SEL), (k as i64, m as i64))
